@@ -1,8 +1,8 @@
 (* C04 - Expressions that read outputs see the most recently read device values.
    Property theorems only; proofs in proofs/IterLogProof.v (and OutputsProof.v for the
    missing-read constructor failure, see props/C13.v). *)
-From DTR Require Import Prelude I64 Ast FramedMap Parser Bind Eval Stmt Iter.
-From DTR.proofs Require Import IterLogProof.
+From DTR Require Import Prelude I64 Ast FramedMap Lexer Parser Bind Eval Stmt Iter Script WfSpec.
+From DTR.proofs Require Import IterLogProof OutputsProof RunRefineE IterLogProofE OutputsRunProof.
 Local Open Scope nat_scope.
 
 (* the outputs map of a fresh iterator is the answer to the constructor's call *)
@@ -57,5 +57,123 @@ Theorem C04_read_ZX_is_error : forall G c x v rng, ctx_get c x = Some v -> (v = 
   eval G c (EVar x) rng = (Err (XE_UnexpectedValueForSignal x v), rng).
 Proof. exact read_ZX_is_error. Qed.
 
+(* what a call of next() does to the output values expressions read, in EVERY outcome: a checked row's answer replaces them; so does an answer that is then REFUSED (wrong number or order of outputs, a declared signal that fails on it) - it was returned by the latest output-reading call; a write-only row, a failed call, an evaluation error before any call and None leave them alone *)
+Theorem C04_every_outcome_of_next :
+  forall (G : gen) (DE : Type) (D : driver DE) (w_default : bool) (tc : testcase) 
+  (fuel : nat) (st : istate),
+  match inext G DE D w_default tc fuel st with
+  | ItNone _ st' =>
+  get_row G tc fuel st = GRNone st' /\ i_log st' = i_log st /\ couts (i_ctx st') = couts (i_ctx st)
+  | ItRow _ _ st' =>
+  exists (er : evaluated_row) (st1 : istate),
+  get_row G tc fuel st = GRRow er st1 /\
+  (er_update_output er = true /\
+  (exists outs : list out_entry,
+  D (i_log st) (RW, er_inputs er) = DrvOk outs /\
+  i_log st' = i_log st ++ [(RW, er_inputs er)] /\ couts (i_ctx st') = outs_map outs) \/
+  er_update_output er = false /\
+  (exists outs : list out_entry,
+  D (i_log st) (wkind w_default, er_inputs er) = DrvOk outs /\
+  i_log st' = i_log st ++ [(wkind w_default, er_inputs er)] /\
+  couts (i_ctx st') = couts (i_ctx st)))
+  | ItErr _ (IE_Driver e) st' =>
+  exists (er : evaluated_row) (st1 : istate),
+  get_row G tc fuel st = GRRow er st1 /\
+  (let kind := if er_update_output er then RW else wkind w_default in
+  D (i_log st) (kind, er_inputs er) = DrvErr e /\
+  i_log st' = i_log st ++ [(kind, er_inputs er)] /\ couts (i_ctx st') = couts (i_ctx st))
+  | ItErr _ (IE_Runtime r) st' =>
+  (exists x : xerr,
+  r = RT_Expr x /\
+  get_row G tc fuel st = GRErr x st' /\
+  i_log st' = i_log st /\ couts (i_ctx st') = couts (i_ctx st)) \/
+  (exists (er : evaluated_row) (st1 : istate) (outs : list out_entry),
+  get_row G tc fuel st = GRRow er st1 /\
+  er_update_output er = true /\
+  D (i_log st) (RW, er_inputs er) = DrvOk outs /\
+  refusal (i_nout st) outs r /\
+  i_log st' = i_log st ++ [(RW, er_inputs er)] /\ couts (i_ctx st') = outs_map outs)
+  | _ => True
+  end.
+Proof. exact inext_outputs_all. Qed.
+
+(* RUN LEVEL, through error items: in every state reachable from the constructor by any calls of next(), the output values are the answer to the LAST call of kind RW in the driver's call log that the driver answered (accepted or not) - for a driver with its own write_input, where the log tells reading calls from write-only ones *)
+Theorem C04_outputs_are_the_last_read :
+  forall (G : gen) (DE : Type) (D : driver DE) (w_default : bool) (tc : testcase),
+  w_default = false ->
+  forall st : istate,
+  reachable G DE D w_default tc st ->
+  exists outs : list out_entry,
+  last_read DE D (i_log st) = Some outs /\ couts (i_ctx st) = outs_map outs.
+Proof. exact outputs_are_the_last_read. Qed.
+
+(* ... and for every driver (also one that relies on the default write_input, whose write-only calls look like reading calls in its log) with the calls that read outputs marked *)
+Theorem C04_outputs_are_the_last_read_any_driver :
+  forall (G : gen) (DE : Type) (D : driver DE) (w_default : bool) (tc : testcase) 
+  (st : istate) (fl : list bool),
+  reach_f G DE D w_default tc st fl ->
+  length fl = length (i_log st) /\
+  (exists outs : list out_entry,
+  last_read_sel DE D (flag_sel fl) (i_log st) = Some outs /\ couts (i_ctx st) = outs_map outs).
+Proof. exact outputs_are_the_last_read_flagged. Qed.
+
+(* in the words of the property: an identifier that is no variable in scope evaluates to the value for that name in that answer - a number, or an error for Z / X, or "unknown" when the answer has no such entry *)
+Theorem C04_read_sees_last_read :
+  forall (G : gen) (DE : Type) (D : driver DE) (w_default : bool) (tc : testcase),
+  w_default = false ->
+  forall st : istate,
+  reachable G DE D w_default tc st ->
+  exists outs : list out_entry,
+  last_read DE D (i_log st) = Some outs /\
+  (forall (c : ctx) (x : name) (rng : rng_state),
+  couts c = couts (i_ctx st) ->
+  fm_get (cvars c) x = None ->
+  eval G c (EVar x) rng =
+  (match assoc_last x (outs_map outs) with
+  | Some (OVal n) => Ok n
+  | Some (OZ as v) | Some (OX as v) => Err (XE_UnexpectedValueForSignal x v)
+  | None => Err (XE_UnknownVariable x)
+  end, rng)).
+Proof. exact eval_output_sees_last_read. Qed.
+
+(* mid-clock writes do not refresh it *)
+Theorem C04_write_only_calls_do_not_refresh :
+  forall (G : gen) (DE : Type) (D : driver DE) (w_default : bool) (tc : testcase) 
+  (fuel : nat) (st st' : istate) (ins : list in_entry),
+  next_state DE (inext G DE D w_default tc fuel st) = Some st' ->
+  i_log st' = i_log st ++ [(WO, ins)] ->
+  couts (i_ctx st') = couts (i_ctx st) /\ last_read DE D (i_log st') = last_read DE D (i_log st).
+Proof. exact write_only_calls_do_not_refresh. Qed.
+
+(* a call the driver fails does not refresh it *)
+Theorem C04_failed_calls_do_not_refresh :
+  forall (G : gen) (DE : Type) (D : driver DE) (w_default : bool) (tc : testcase) 
+  (fuel : nat) (st : istate) (e : DE) (st' : istate),
+  inext G DE D w_default tc fuel st = ItErr DE (IE_Driver e) st' ->
+  couts (i_ctx st') = couts (i_ctx st) /\ last_read DE D (i_log st') = last_read DE D (i_log st).
+Proof. exact failed_calls_do_not_refresh. Qed.
+
+(* an answer the iterator refuses IS what later expressions read (closed examples in OutputsRunProof.Example_outputs_run) *)
+Theorem C04_refused_answer_is_read :
+  forall (G : gen) (DE : Type) (D : driver DE) (w_default : bool) (tc : testcase) 
+  (fuel : nat) (st : istate) (r : rterr) (st' : istate),
+  inext G DE D w_default tc fuel st = ItErr DE (IE_Runtime r) st' ->
+  i_log st' <> i_log st ->
+  exists (ins : list in_entry) (outs : list out_entry),
+  i_log st' = i_log st ++ [(RW, ins)] /\
+  D (i_log st) (RW, ins) = DrvOk outs /\
+  refusal (i_nout st) outs r /\
+  couts (i_ctx st') = outs_map outs /\
+  last_read DE D (i_log st') = Some outs /\
+  (forall x : name,
+  fm_get (cvars (i_ctx st')) x = None -> ctx_get (i_ctx st') x = assoc_last x (outs_map outs)).
+Proof. exact refused_answer_is_read. Qed.
+
+
 Check C04_outputs_after_next.
 Print Assumptions C04_outputs_after_next.
+Print Assumptions C04_every_outcome_of_next.
+Print Assumptions C04_outputs_are_the_last_read.
+Print Assumptions C04_outputs_are_the_last_read_any_driver.
+Print Assumptions C04_read_sees_last_read.
+Print Assumptions C04_refused_answer_is_read.
